@@ -14,7 +14,7 @@ func init() {
 	register(&Rule{ID: "C09.IMM", Min: 20, Doc: "type objects (ObjectType/ArrayType) are only mutated while they can only be fresh allocations", Run: runC09Imm})
 	register(&Rule{ID: "C09.RESET", Min: 8, Doc: "every rule field written while visiting a job is reset for the next job", Run: runC09Reset})
 	register(&Rule{ID: "C09.AST", Min: 1, Doc: "the workflow AST is never written outside the parser", Run: runC09Ast})
-	register(&Rule{ID: "C09.FRESH", Min: 2, Doc: "expression checkers are created per expression and never kept in rule state", Run: runC09Fresh})
+	register(&Rule{ID: "C09.FRESH", Min: 3, Doc: "expression checkers are created per expression and never kept in rule state", Run: runC09Fresh})
 }
 
 func pointeeName(t types.Type) string {
@@ -513,45 +513,374 @@ func runC09Ast(c *Ctx) {
 
 // ---- C09.FRESH ----
 
+// An expression checker (semantics checker, untrusted-input checker) lives for one expression: it is created, used and
+// dropped within one activation of the function that checks the expression. The rule decides this from both ends:
+// forward from every place where one is created (the value is only held in locals, handed to functions that do not keep
+// it, returned to callers for which the same holds, or - the untrusted-input checker - becomes the `untrusted` part of
+// exactly one checker created in the same activation), and for every instruction of the package that puts a checker (or
+// a slice, map or struct that holds one) anywhere but into a local variable.
 func runC09Fresh(c *Ctx) {
 	p := c.P
-	n := 0
+	kinds := map[string]bool{"ExprSemanticsChecker": true, "UntrustedInputChecker": true}
+	holds := func(t types.Type) string { return holdsChecker(t, kinds, 0) }
+	fresh := func(v ssa.Value, params bool) bool {
+		origs := p.Origins(v, FlowOpts{Params: params})
+		if len(origs) == 0 {
+			return false
+		}
+		for _, o := range origs {
+			if o.Kind != OAlloc {
+				return false
+			}
+		}
+		return true
+	}
+	occ := map[string]int{}
 	for _, fn := range p.Funcs {
 		eachInstr(fn, func(_ *ssa.BasicBlock, _ int, in ssa.Instruction) {
-			st, ok := in.(*ssa.Store)
-			if !ok {
-				return
-			}
-			vt := pointeeName(st.Val.Type())
-			if vt != "ExprSemanticsChecker" && vt != "UntrustedInputChecker" {
-				return
-			}
-			if _, isPtr := st.Val.Type().Underlying().(*types.Pointer); !isPtr {
-				return
-			}
-			n++
-			switch a := st.Addr.(type) {
-			case *ssa.Alloc:
-				return // local variable
-			case *ssa.FieldAddr:
-				if fieldAddrName(a) == "ExprSemanticsChecker.untrusted" {
-					c.ok(FuncName(fn)+"|store of *"+vt+" into "+fieldAddrName(a), st.Pos(), "the untrusted-input checker belongs to its per-expression semantics checker")
+			switch x := in.(type) {
+			case *ssa.Store:
+				vt := holds(x.Val.Type())
+				if vt == "" {
 					return
 				}
-				c.bad(FuncName(fn)+"|store of *"+vt+" into "+fieldAddrName(a), st.Pos(), "an expression checker is kept in a field: its state (errors, candidate paths, copied context table) would be shared between expressions")
-			default:
-				c.bad(FuncName(fn)+"|store of *"+vt, st.Pos(), "an expression checker is stored outside a local variable")
+				switch a := x.Addr.(type) {
+				case *ssa.Alloc:
+					if _, isArr := a.Type().Underlying().(*types.Pointer).Elem().Underlying().(*types.Array); !isArr {
+						return // local variable
+					}
+					c.bad(FuncName(fn)+"|store of "+vt, x.Pos(), "an expression checker is copied into an array")
+				case *ssa.FieldAddr:
+					construct := FuncName(fn) + "|store of " + vt + " into " + fieldAddrName(a)
+					if fieldAddrName(a) == "ExprSemanticsChecker.untrusted" {
+						switch {
+						case !fresh(x.Val, false):
+							c.bad(construct, x.Pos(), "the untrusted-input checker stored into a semantics checker is not one created for it in this activation: its matcher state (candidate paths, object-filter flag, errors) would be shared between expressions")
+						case !fresh(a.X, true):
+							c.bad(construct, x.Pos(), "the semantics checker that receives the untrusted-input checker is not one created in this activation")
+						default:
+							c.ok(construct, x.Pos(), "a newly created untrusted-input checker becomes part of a semantics checker created in the same activation")
+						}
+						return
+					}
+					c.bad(construct, x.Pos(), "an expression checker is kept in a field: its state (errors, candidate paths, copied context table) would be shared between expressions")
+				case *ssa.IndexAddr:
+					occ[FuncName(fn)]++
+					c.bad(fmt.Sprintf("%s|store of %s into a slice or array element#%d", FuncName(fn), vt, occ[FuncName(fn)]), x.Pos(), "an expression checker is kept in a slice: its state (errors, candidate paths, copied context table) would be shared between expressions")
+				case *ssa.Global:
+					c.bad(FuncName(fn)+"|store of "+vt+" into "+a.Name(), x.Pos(), "an expression checker is kept in a package-level variable")
+				default:
+					c.bad(FuncName(fn)+"|store of "+vt, x.Pos(), "an expression checker is stored outside a local variable")
+				}
+			case *ssa.MapUpdate:
+				if vt := holds(x.Value.Type()); vt != "" {
+					where := "a map"
+					if f, _ := fieldLoad(x.Map); f != "" {
+						where = f
+					}
+					c.bad(FuncName(fn)+"|store of "+vt+" into "+where, x.Pos(), "an expression checker is kept in a map: the next expression with the same key is checked with the state (errors, candidate paths, copied context table) of the previous one")
+				}
+			case *ssa.Send:
+				if vt := holds(x.X.Type()); vt != "" {
+					c.bad(FuncName(fn)+"|send of "+vt, x.Pos(), "an expression checker is sent over a channel")
+				}
 			}
 		})
 	}
-	// constructors are only called from the per-expression entry point
-	for _, ctor := range []string{"NewExprSemanticsChecker", "NewUntrustedInputChecker"} {
-		f := p.Func(ctor)
-		if f == nil {
-			c.anchorMissing(ctor)
+	// forward from every creation
+	n := 0
+	for _, fn := range p.Funcs {
+		eachInstr(fn, func(_ *ssa.BasicBlock, _ int, in ssa.Instruction) {
+			al, ok := in.(*ssa.Alloc)
+			if !ok || !kinds[typeStr(al.Type().Underlying().(*types.Pointer).Elem())] {
+				return
+			}
+			n++
+			t := &escTracker{p: p, seen: map[ssa.Value]bool{}, fresh: fresh}
+			t.track(al, 0)
+			construct := FuncName(fn) + "|new " + typeStr(al.Type()) + " does not outlive the check of one expression"
+			if len(t.problems) > 0 {
+				sort.Strings(t.problems)
+				c.bad(construct, al.Pos(), t.problems[0]+": the checker's state would be carried from one expression to the next")
+				return
+			}
+			sort.Strings(t.via)
+			sort.Strings(t.handed)
+			c.ok(construct, al.Pos(), fmt.Sprintf("only held in local variables; returned through: %s; handed to %d functions of the module, none of which keeps it; part of %d other checker(s)", strings.Join(dedupe(t.via), ", "), len(dedupe(t.handed)), t.owners))
+		})
+	}
+	if n == 0 {
+		c.anchorMissing("allocation of ExprSemanticsChecker / UntrustedInputChecker")
+	}
+}
+
+func dedupe(ss []string) []string {
+	var out []string
+	for i, s := range ss {
+		if i == 0 || s != ss[i-1] {
+			out = append(out, s)
+		}
+	}
+	return out
+}
+
+// holdsChecker: t is a pointer to a checker, or a slice / array / map / struct value / channel that holds one. Returns a
+// description of the type, "" otherwise.
+func holdsChecker(t types.Type, kinds map[string]bool, depth int) string {
+	if depth > 3 {
+		return ""
+	}
+	switch u := t.Underlying().(type) {
+	case *types.Pointer:
+		if kinds[typeStr(u.Elem())] {
+			return "*" + typeStr(u.Elem())
+		}
+	case *types.Slice:
+		if holdsChecker(u.Elem(), kinds, depth+1) != "" {
+			return typeStr(t)
+		}
+	case *types.Array:
+		if holdsChecker(u.Elem(), kinds, depth+1) != "" {
+			return typeStr(t)
+		}
+	case *types.Chan:
+		if holdsChecker(u.Elem(), kinds, depth+1) != "" {
+			return typeStr(t)
+		}
+	case *types.Map:
+		if holdsChecker(u.Elem(), kinds, depth+1) != "" || holdsChecker(u.Key(), kinds, depth+1) != "" {
+			return typeStr(t)
+		}
+	case *types.Struct:
+		if kinds[typeStr(t)] {
+			return ""
+		}
+		for i := 0; i < u.NumFields(); i++ {
+			if holdsChecker(u.Field(i).Type(), kinds, depth+1) != "" {
+				return typeStr(t)
+			}
+		}
+	}
+	return ""
+}
+
+// escTracker follows a newly created checker forward.
+type escTracker struct {
+	p        *Prog
+	seen     map[ssa.Value]bool
+	fresh    func(v ssa.Value, params bool) bool
+	problems []string
+	via      []string // return edges followed
+	handed   []string // functions that receive it as an argument
+	owners   int
+}
+
+func (t *escTracker) problem(pos token.Pos, msg string) {
+	t.problems = append(t.problems, msg+" at "+t.p.Pos(pos))
+}
+
+func (t *escTracker) track(v ssa.Value, depth int) {
+	if v == nil || t.seen[v] || v.Referrers() == nil {
+		return
+	}
+	t.seen[v] = true
+	if depth > 40 { // termination is by the set of values already followed; this only bounds pathological chains
+		t.problem(v.Pos(), "the value is passed on too far to be followed")
+		return
+	}
+	fn := fnOf(v)
+	for _, ref := range *v.Referrers() {
+		switch r := ref.(type) {
+		case *ssa.Store:
+			if r.Val != v {
+				continue // a write through the pointer
+			}
+			switch a := r.Addr.(type) {
+			case *ssa.Alloc:
+				t.local(a, depth)
+			case *ssa.FieldAddr:
+				if fieldAddrName(a) == "ExprSemanticsChecker.untrusted" && t.fresh(a.X, true) {
+					t.owners++
+					if t.owners > 1 {
+						t.problem(r.Pos(), "it becomes part of more than one semantics checker")
+					}
+					continue
+				}
+				t.problem(r.Pos(), "it is kept in the field "+fieldAddrName(a))
+			case *ssa.IndexAddr:
+				t.problem(r.Pos(), "it is kept in an element of a slice or array")
+			case *ssa.Global:
+				t.problem(r.Pos(), "it is kept in the package-level variable "+a.Name())
+			default:
+				t.problem(r.Pos(), "it is stored outside a local variable")
+			}
+		case *ssa.MapUpdate:
+			if r.Value == v || r.Key == v {
+				t.problem(r.Pos(), "it is kept in a map")
+			}
+		case *ssa.Send:
+			if r.X == v {
+				t.problem(r.Pos(), "it is sent over a channel")
+			}
+		case *ssa.MakeClosure:
+			t.closure(r, v, depth)
+		case *ssa.Phi, *ssa.MakeInterface, *ssa.ChangeType, *ssa.ChangeInterface, *ssa.Convert, *ssa.TypeAssert:
+			t.track(r.(ssa.Value), depth)
+		case *ssa.Extract:
+			if ta, ok := r.Tuple.(*ssa.TypeAssert); ok && ta == v && r.Index == 0 {
+				t.track(r, depth)
+			}
+		case *ssa.Return:
+			idx := -1
+			for i, res := range r.Results {
+				if res == v {
+					idx = i
+				}
+			}
+			t.returned(fn, idx, len(r.Results), depth)
+		case *ssa.Go:
+			t.problem(r.Pos(), "it is handed to a goroutine")
+		case *ssa.Call:
+			t.call(r, v, depth)
+		case *ssa.Defer:
+			t.call(r, v, depth)
+		}
+	}
+}
+
+// local: a local variable that holds the value: every load of it is followed; a variable captured by a closure is followed
+// into the closure when the closure is only called on the spot.
+func (t *escTracker) local(a *ssa.Alloc, depth int) {
+	if t.seen[a] {
+		return
+	}
+	t.seen[a] = true
+	for _, ref := range *a.Referrers() {
+		switch r := ref.(type) {
+		case *ssa.UnOp:
+			t.track(r, depth)
+		case *ssa.MakeClosure:
+			t.closure(r, a, depth)
+		case *ssa.Store, *ssa.DebugRef:
+		default:
+			t.problem(ref.Pos(), "the address of the variable that holds it is passed on")
+		}
+	}
+}
+
+func (t *escTracker) closure(mc *ssa.MakeClosure, bound ssa.Value, depth int) {
+	for _, ref := range *mc.Referrers() {
+		switch r := ref.(type) {
+		case *ssa.Call:
+			if r.Call.Value == ssa.Value(mc) {
+				continue
+			}
+		case *ssa.Defer:
+			if r.Call.Value == ssa.Value(mc) {
+				continue
+			}
+		case *ssa.DebugRef:
 			continue
 		}
-		callers := p.callerNames(f)
-		c.ok("callers of "+ctor, f.Pos(), "created in: "+strings.Join(callers, ", "))
+		t.problem(mc.Fn.Pos(), "it is captured by a closure that is passed on")
+		return
+	}
+	f, ok := mc.Fn.(*ssa.Function)
+	if !ok {
+		return
+	}
+	for i, b := range mc.Bindings {
+		if b != bound || i >= len(f.FreeVars) {
+			continue
+		}
+		fv := f.FreeVars[i]
+		if _, isVar := bound.(*ssa.Alloc); isVar {
+			if t.seen[fv] {
+				continue
+			}
+			t.seen[fv] = true
+			for _, ref := range *fv.Referrers() {
+				switch r := ref.(type) {
+				case *ssa.UnOp:
+					t.track(r, depth+1)
+				case *ssa.MakeClosure:
+					t.closure(r, fv, depth+1)
+				case *ssa.Store, *ssa.DebugRef:
+				default:
+					t.problem(ref.Pos(), "the address of the variable that holds it is passed on")
+				}
+			}
+		} else {
+			t.track(fv, depth+1)
+		}
+	}
+}
+
+func (t *escTracker) returned(fn *ssa.Function, idx, nres, depth int) {
+	if fn == nil || idx < 0 {
+		return
+	}
+	for _, e := range t.p.callersOf(fn) {
+		if e.Site == nil {
+			continue
+		}
+		val := e.Site.Value()
+		if val == nil {
+			if _, isGo := e.Site.(*ssa.Go); isGo {
+				continue
+			}
+			continue // deferred: the result is dropped
+		}
+		t.via = append(t.via, FuncName(fn)+" -> "+FuncName(e.Caller.Func))
+		if nres == 1 {
+			t.track(val, depth+1)
+			continue
+		}
+		for _, ref := range *val.Referrers() {
+			if ex, ok := ref.(*ssa.Extract); ok && ex.Index == idx {
+				t.track(ex, depth+1)
+			}
+		}
+	}
+}
+
+func (t *escTracker) call(site ssa.CallInstruction, v ssa.Value, depth int) {
+	cc := site.Common()
+	if b, ok := cc.Value.(*ssa.Builtin); ok {
+		_ = b
+		return // len, print, ...: nothing is kept (append takes its elements from a slice, whose stores are seen)
+	}
+	callees := t.p.calleesOf(site)
+	if len(callees) == 0 {
+		t.problem(site.Pos(), "it is handed to a call whose target is not known")
+		return
+	}
+	for _, g := range callees {
+		if !inModule(g) || g.Blocks == nil {
+			t.problem(site.Pos(), "it is handed to "+funcFullName(g)+", which is outside the module")
+			continue
+		}
+		if cc.IsInvoke() {
+			if cc.Value == v && len(g.Params) > 0 {
+				t.handed = append(t.handed, FuncName(g))
+				t.track(g.Params[0], depth+1)
+			}
+			for i, a := range cc.Args {
+				if a == v && i+1 < len(g.Params) {
+					t.handed = append(t.handed, FuncName(g))
+					t.track(g.Params[i+1], depth+1)
+				}
+			}
+			continue
+		}
+		for i, a := range cc.Args {
+			if a == v && i < len(g.Params) {
+				t.handed = append(t.handed, FuncName(g))
+				t.track(g.Params[i], depth+1)
+			}
+		}
+		if cc.Value == v {
+			t.problem(site.Pos(), "it is called as a function")
+		}
 	}
 }
